@@ -90,6 +90,33 @@ func runC09(c *core.Ctx) {
 			}
 		}
 	}
+	// wrapper renderers outside package ast (linter/types.*.String, tester/syntax.*.String, ...)
+	for changed := true; changed; {
+		changed = false
+		for _, fn := range prog.ModuleFuncs() {
+			if cb[fn] || fn.Name() != "String" || fn.Signature.Recv() == nil {
+				continue
+			}
+			for _, b := range fn.Blocks {
+				for _, in := range b.Instrs {
+					ci, ok := in.(ssa.CallInstruction)
+					if !ok {
+						continue
+					}
+					cc := ci.Common()
+					if cc.IsInvoke() && cc.Method.Name() == "String" && strings.HasPrefix(core.NamedTypePkgName(cc.Value.Type()), astPkgPath+".") {
+						cb[fn] = true
+					}
+					if cal := cc.StaticCallee(); cal != nil && cb[cal] {
+						cb[fn] = true
+					}
+				}
+			}
+			if cb[fn] {
+				changed = true
+			}
+		}
+	}
 	var cbNames []string
 	for n, fn := range strFns {
 		if cb[fn] {
@@ -114,21 +141,66 @@ func runC09(c *core.Ctx) {
 			return ""
 		}
 		if cal := cc.StaticCallee(); cal != nil && cb[cal] {
-			return "(*ast." + recvTypeName(cal) + ").String() of " + describeValue(cc.Args[0])
+			return "(*" + recvTypeName(cal) + ").String() of " + describeValue(cc.Args[0])
 		}
 		return ""
 	}
 	scopeFuncs := prog.ModuleFuncs("parser", "linter", "interpreter", "tester")
 	// inter-procedural taint of string parameters
 	tainted := map[*ssa.Parameter]string{}
-	srcOf := func(v ssa.Value) string {
+	taintedField := map[*types.Var]string{}   // struct fields (field-based heap abstraction) that hold such a rendering
+	taintedRet := map[*ssa.Function]string{}  // functions returning such a rendering (as a string or inside a slice)
+	var srcOf func(v ssa.Value) string
+	srcOfDepth := 0
+	srcOf = func(v ssa.Value) string {
+		srcOfDepth++
+		defer func() { srcOfDepth-- }()
+		if srcOfDepth > 6 {
+			return ""
+		}
 		for x := range core.BackSlice(v) {
 			if s := isSource(x); s != "" {
 				return s
 			}
-			if p, ok := x.(*ssa.Parameter); ok {
-				if s, ok := tainted[p]; ok {
+			switch t := x.(type) {
+			case *ssa.Parameter:
+				if s, ok := tainted[t]; ok {
 					return s
+				}
+			case *ssa.FieldAddr:
+				if f := core.FieldOf(t); f != nil {
+					if s, ok := taintedField[f]; ok {
+						return s
+					}
+				}
+			case *ssa.Field:
+				if f := core.FieldOf(t); f != nil {
+					if s, ok := taintedField[f]; ok {
+						return s
+					}
+				}
+			case *ssa.Call:
+				if cal := t.Common().StaticCallee(); cal != nil {
+					if s, ok := taintedRet[cal]; ok {
+						return s
+					}
+				}
+			case *ssa.Slice:
+				// elements stored into a slice literal / variadic argument array
+				if al, ok := t.X.(*ssa.Alloc); ok && al.Referrers() != nil {
+					for _, r := range *al.Referrers() {
+						ia, ok := r.(*ssa.IndexAddr)
+						if !ok || ia.Referrers() == nil {
+							continue
+						}
+						for _, rr := range *ia.Referrers() {
+							if st, ok := rr.(*ssa.Store); ok && st.Addr == ssa.Value(ia) {
+								if s := srcOf(st.Val); s != "" {
+									return s
+								}
+							}
+						}
+					}
 				}
 			}
 		}
@@ -138,6 +210,12 @@ func runC09(c *core.Ctx) {
 		b, ok := t.Underlying().(*types.Basic)
 		return ok && b.Info()&types.IsString != 0
 	}
+	isStringSlice := func(t types.Type) bool {
+		sl, ok := t.Underlying().(*types.Slice)
+		return ok && isStringish(sl.Elem())
+	}
+	// fields that hold text for humans: a rendering stored there is a message, not a name
+	messageFields := map[string]bool{"Message": true, "Reference": true, "Description": true}
 	inScope := map[*ssa.Function]bool{}
 	for _, fn := range scopeFuncs {
 		inScope[fn] = true
@@ -156,7 +234,7 @@ func runC09(c *core.Ctx) {
 						continue
 					}
 					for i, a := range ci.Common().Args {
-						if i >= len(cal.Params) || !isStringish(a.Type()) {
+						if i >= len(cal.Params) || !(isStringish(a.Type()) || isStringSlice(a.Type())) {
 							continue
 						}
 						if _, done := tainted[cal.Params[i]]; done {
@@ -165,6 +243,42 @@ func runC09(c *core.Ctx) {
 						if s := srcOf(a); s != "" {
 							tainted[cal.Params[i]] = s + " (via " + core.FnName(fn) + ")"
 							changed = true
+						}
+					}
+				}
+			}
+			// heap and return flows
+			for _, b := range fn.Blocks {
+				for _, in := range b.Instrs {
+					switch t := in.(type) {
+					case *ssa.Store:
+						fa, ok := t.Addr.(*ssa.FieldAddr)
+						if !ok || !(isStringish(t.Val.Type()) || isStringSlice(t.Val.Type())) {
+							continue
+						}
+						f := core.FieldOf(fa)
+						if f == nil || f.Pkg() == nil || !strings.HasPrefix(f.Pkg().Path(), core.ModPath) || messageFields[f.Name()] {
+							continue
+						}
+						if _, done := taintedField[f]; done {
+							continue
+						}
+						if s := srcOf(t.Val); s != "" {
+							taintedField[f] = s + " (stored in " + core.NamedTypeName(derefType(fa.X.Type())) + "." + f.Name() + " by " + core.FnName(fn) + ")"
+							changed = true
+						}
+					case *ssa.Return:
+						if _, done := taintedRet[fn]; done {
+							continue
+						}
+						for _, r := range t.Results {
+							if !(isStringish(r.Type()) || isStringSlice(r.Type())) {
+								continue
+							}
+							if s := srcOf(r); s != "" {
+								taintedRet[fn] = s + " (returned by " + core.FnName(fn) + ")"
+								changed = true
+							}
 						}
 					}
 				}
@@ -244,6 +358,40 @@ func runC09(c *core.Ctx) {
 			}
 		}
 	}
+	// ---- cmt.flow: a comment-bearing rendering may only end up in text for humans (messages, other renderers)
+	nFlows := 0
+	for _, fn := range scopeFuncs {
+		if cb[fn] {
+			continue // a renderer returns its rendering
+		}
+		for _, b := range fn.Blocks {
+			for _, in := range b.Instrs {
+				v, ok := in.(ssa.Value)
+				if !ok || isSource(v) == "" {
+					continue
+				}
+				nFlows++
+				bad := map[string]bool{}
+				for _, u := range renderingUses(v, 0) {
+					if !messageUse(u) {
+						bad[u] = true
+					}
+				}
+				key := core.FnName(fn) + "|" + strings.SplitN(isSource(v), " of ", 2)[0]
+				if len(bad) == 0 {
+					c.Discharge("cmt.flow", key, in.Pos(), "the rendering only reaches messages")
+					continue
+				}
+				var bs []string
+				for u := range bad {
+					bs = append(bs, u)
+				}
+				sort.Strings(bs)
+				c.Report("cmt.flow", key+"|"+strings.Join(bs, ","), in.Pos(), fmt.Sprintf("%s uses %s — a rendering that embeds comments — as data (%s), not as text for a message: a comment at that position travels into names, keys or values the tool computes with", core.FnName(fn), isSource(v), strings.Join(bs, ", ")))
+			}
+		}
+	}
+	c.Extra("rendering_flows", nFlows)
 	c.Extra("decision_sinks_scanned", nSinks)
 	c.Floor("cmt.decide", 300)
 
@@ -367,4 +515,101 @@ func runC09(c *core.Ctx) {
 	c.Instances("cmt.layout", nConds)
 	c.Extra("branch_conditions_scanned", nConds)
 	c.Floor("cmt.layout", 2000)
+}
+
+// renderingUses: terminal uses of a rendering other than recognised message sinks.
+func renderingUses(v ssa.Value, depth int) []string {
+	var out []string
+	if v.Referrers() == nil || depth > 5 {
+		return nil
+	}
+	for _, r := range *v.Referrers() {
+		switch t := r.(type) {
+		case *ssa.DebugRef:
+		case *ssa.BinOp:
+			if t.Op == token.ADD {
+				out = append(out, renderingUses(t, depth+1)...)
+			} else {
+				out = append(out, "binop "+t.Op.String())
+			}
+		case *ssa.MakeInterface:
+			out = append(out, renderingUses(t, depth+1)...)
+		case *ssa.Phi:
+			out = append(out, renderingUses(t, depth+1)...)
+		case *ssa.Store:
+			if fa, ok := t.Addr.(*ssa.FieldAddr); ok {
+				if f := core.FieldOf(fa); f != nil {
+					if f.Name() == "Message" {
+						continue
+					}
+					out = append(out, "store field "+core.NamedTypeName(derefType(fa.X.Type()))+"."+f.Name())
+					continue
+				}
+			}
+			if ia, ok := t.Addr.(*ssa.IndexAddr); ok {
+				// element of a variadic/slice literal: follow the slice
+				if al, ok := ia.X.(*ssa.Alloc); ok && al.Referrers() != nil {
+					for _, rr := range *al.Referrers() {
+						if sl, ok := rr.(*ssa.Slice); ok {
+							out = append(out, renderingUses(sl, depth+1)...)
+						}
+					}
+					continue
+				}
+				out = append(out, "store element")
+				continue
+			}
+			out = append(out, "store")
+		case ssa.CallInstruction:
+			cal := t.Common().StaticCallee()
+			name := "dynamic call"
+			if cal != nil {
+				name = cal.String()
+				if cal.Pkg != nil {
+					name = cal.Pkg.Pkg.Path() + "." + cal.Name()
+				}
+			} else if bi, ok := t.Common().Value.(*ssa.Builtin); ok {
+				name = "builtin " + bi.Name()
+			} else if t.Common().IsInvoke() {
+				name = "invoke " + t.Common().Method.Name()
+			}
+			// constructors of diagnostics and errors: the rendering becomes part of a message
+			if cal != nil && cal.Signature.Results().Len() >= 1 {
+				rt := cal.Signature.Results().At(cal.Signature.Results().Len() - 1).Type()
+				switch core.NamedTypeName(derefType(rt)) {
+				case "error", "LintError", "Exception":
+					out = append(out, "msgcall "+name)
+					continue
+				}
+			}
+			out = append(out, "call "+name)
+		case *ssa.Return:
+			out = append(out, "return from "+t.Parent().Name())
+		case *ssa.Lookup:
+			out = append(out, "map key")
+		case *ssa.MapUpdate:
+			out = append(out, "map update")
+		default:
+			out = append(out, fmt.Sprintf("%T", r))
+		}
+	}
+	return out
+}
+
+// messageUse: a terminal use that only produces text for humans.
+func messageUse(u string) bool {
+	if strings.HasPrefix(u, "msgcall ") {
+		return true
+	}
+	if !strings.HasPrefix(u, "call ") {
+		return false
+	}
+	name := strings.TrimPrefix(u, "call ")
+	switch {
+	case strings.HasPrefix(name, "fmt."), strings.HasPrefix(name, "errors."), strings.HasPrefix(name, "github.com/pkg/errors."), strings.HasPrefix(name, "log."):
+		return true
+	case strings.HasSuffix(name, ".Message") || strings.HasSuffix(name, ".Debugf") || strings.HasSuffix(name, ".Printf"):
+		return true
+	}
+	return false
 }
